@@ -280,10 +280,24 @@ fn fanout_list() -> BoxedStrategy<PatList> {
             4 => 253u16..=256,
         ],
         any::<u8>(),
+        0u8..10,
         vec(any::<u8>(), 0..=3),
     )
-        .prop_map(|(prefix, n, start, tails)| PatList::Fanout { prefix, n, start, tails })
+        .prop_map(|(prefix, n, start, align, tails)| PatList::Fanout { prefix, n, start: fanout_start(n, start, align), tails })
         .boxed()
+}
+
+/// First child byte of a fan-out node: mostly arbitrary, but often aligned so
+/// that the run of consecutive child bytes ends at 0xFF, starts at 0x00, or
+/// ends/starts at the ASCII boundary 0x7F/0x80.
+pub fn fanout_start(n: u16, raw: u8, align: u8) -> u8 {
+    match align {
+        0 => (256u16.wrapping_sub(n) & 0xFF) as u8,
+        1 => 0,
+        2 => (128u16.wrapping_sub(n) & 0xFF) as u8,
+        3 => 128,
+        _ => raw,
+    }
 }
 
 pub fn pat_list(o: PatOpts) -> BoxedStrategy<PatList> {
